@@ -449,6 +449,83 @@ def dict_mutations(R, ir, fmt, wrappers, rng, tier, repro):
                     R.sample({'format': fmt, 'mutation': mname, 'at': repr(p), 'fault': fault})
 
 
+def jsonrpc_header_mutations(R, ir, rng, tier, repro):
+    """JsonRpc('spyne') carries request headers next to the body ("head"): what user code reads as ctx.in_header, value kinds swapped"""
+    import json
+    from spyne.server import ServerBase
+    from checks import c02
+    conf = refdict.Conf('jsonrpc', True, 'dict', False)
+    try:
+        B = gen.Built(ir)
+        inp, outp = c02.make_protocols(conf, 'soft')
+        server = ServerBase(B.app(inp, outp))
+    except Exception as e:
+        R.skip('universe rejected at construction: %s' % type(e).__name__)
+        return
+    codec = refdict.Codec(ir, conf)
+    for md in ir['services'][0]['methods']:
+        hname = md.get('in_header')
+        if not hname or isinstance(hname, (list, tuple)):
+            continue
+        args = [refval.dense_value(rng, ir, t) for _, t in md['args']]
+        hval = refval.dense_value(rng, ir, {'ref': hname})
+        if any(a is None for a in args) or hval is None:
+            continue
+        try:
+            doc = codec.request(md, args)
+            head = codec.enc({'ref': hname}, hval)
+        except Exception:
+            continue
+
+        def send(h):
+            B.calls[:] = []
+            B.returns.clear()
+            return drive.drive_server(server, json.dumps({'ver': 1, 'head': h, 'body': doc}).encode('utf8'))
+        r0 = send(head)
+        if r0.error is not None or r0.exc is not None or not B.calls:
+            R.skip('the unmutated request with a header is not served (%s)' % (getattr(r0.error, 'faultcode', None) or type(r0.exc).__name__))
+            R.count('baseline_requests_refused')
+            continue
+        R.count('baseline_requests_served')
+        pos = [p for p in positions(head)]
+        rng.shuffle(pos)
+        muts = []
+        for p in pos[:8 if tier == 'quick' else 60]:
+            cur = head
+            for k in p:
+                cur = cur[k]
+            for sname, sval in SUBST:
+                if kind_of(sval) == kind_of(cur) and sname not in ('list', 'map', 'list_of_maps', 'nested_list') and not sname.startswith('chunks_'):
+                    continue
+                muts.append(('kind_swap:%s->%s' % (kind_of(cur), sname), p, sval))
+        rng.shuffle(muts)
+        for mname, p, sval in muts[:30 if tier == 'quick' else 250]:
+            try:
+                mhead = set_path(head, p, sval)
+                json.dumps(mhead)
+            except Exception:
+                continue
+            R.evaluations += 1
+            r = send(mhead)
+            fault = r.error.faultcode if r.error is not None else None
+            case = dict(repro, family='jsonrpc', validator='soft', mutation='header_' + mname.split(':')[0], detail=mname, at=repr(p), header=True,
+                        request=repr(mhead)[:1200])
+            out = classify_outcome(R, B, md, r.exc, r.exc_stage, fault, case, 'header %s at %r' % (mname, p))
+            if out == 'entered_typed':
+                hdr = getattr(B.calls[0][2], 'in_header', None)
+                probs = []
+                R.count('headers_walked')
+                for h in (hdr if isinstance(hdr, (list, tuple)) else [hdr]):
+                    typecheck(B, {'ref': hname}, h, 'in_header', probs)
+                if probs:
+                    R.violation('header %s at %r: user code received %s' % (mname, p, '; '.join('%s: %s' % q for q in probs[:3])), case,
+                                mech='untyped_header_delivered:jsonrpc:%s' % mname.split(':')[0])
+                    continue
+            if out in ('entered_typed', 'rejected'):
+                R.nontrivial('jsonrpc', 'header', mname, out, len(p))
+                R.cell('jsonrpc|header|%s' % out)
+
+
 def two_hierarchies_ir():
     ns = 'urn:vf:c04h'
     I = lambda: {'prim': 'Integer', 'facets': {}}
@@ -556,6 +633,7 @@ def run_universe(R, seed, uid, tier):
     # JsonRpc('spyne'): the JSON conventions inside a versioned envelope, as input protocol
     if uid % 2 == 0 or tier != 'quick':
         dict_mutations(R, ir, 'jsonrpc', False, rng, tier, repro)
+        jsonrpc_header_mutations(R, irh, rng, tier, dict(repro, headers=True))
 
 
 def run(spec, R):
